@@ -29,7 +29,8 @@ ASSUMPTIONS = [
 TRUSTED = ["harness/vloop.py"]
 
 
-def exchange(ctx, version="1.1", methods=("GET", "HEAD", "POST", "PUT"), kinds=("empty", "bytes", "chunked", "stream")):
+def exchange(ctx, version="1.1", methods=("GET", "HEAD", "POST", "PUT"), kinds=("empty", "bytes", "chunked", "stream"),
+             deep=False):
     import logging
 
     import aiohttp
@@ -47,12 +48,17 @@ def exchange(ctx, version="1.1", methods=("GET", "HEAD", "POST", "PUT"), kinds=(
     force_close = ctx.flag("force_close")
     # a reason phrase and a header value with inner runs of whitespace (to be delivered verbatim)
     reason = ctx.pick("reason", [None, "Quota  exceeded\there"]) if status == 200 else None
+    # thorough: response body sizes around the writer's coalescing threshold and the reader's 64 KiB limit
+    pad = ctx.pick("resp_body_size", [0, 2047, 2048, 2049, 70000]) if deep and kind != "empty" else 0
+    req_pad = ctx.pick("req_body_size", [0, 2049, 70000]) if deep and req_body != "none" else 0
     seen = []
 
     async def handler(request):
         body = await request.read()
         seen.append((request.method, request.path_qs, request.headers.get("X-Marker"), bytes(body)))
         tag = f"resp{len(seen)}".encode()
+        if len(seen) == 1 and pad:
+            tag = tag + b"." * (pad - len(tag))
         hdrs = {"X-Resp": f"r{len(seen)}", "X-Spaced": "a  b\tc"}
         if len(seen) > 1:
             return web.Response(status=200, body=tag, headers=hdrs)
@@ -99,8 +105,8 @@ def exchange(ctx, version="1.1", methods=("GET", "HEAD", "POST", "PUT"), kinds=(
                                      version=aiohttp.HttpVersion10 if version == "1.0" else aiohttp.HttpVersion11)
 
     session = loop.run_until_complete(mk())
-    cut_c = ctx.pick("cut_request_bytes", [0, 1, 17, 40, 10 ** 6])
-    cut_s = ctx.pick("cut_response_bytes", [0, 1, 17, 40, 90, 10 ** 6])
+    cut_c = ctx.pick("cut_request_bytes", [0, 1, 17, 40, 10 ** 6] + ([2, 16, 18, 64, 200, 2100] if deep else []))
+    cut_s = ctx.pick("cut_response_bytes", [0, 1, 17, 40, 90, 10 ** 6] + ([2, 16, 18, 64, 130, 150, 2100, 65600] if deep else []))
 
     def pump():
         moved = False
@@ -141,9 +147,11 @@ def exchange(ctx, version="1.1", methods=("GET", "HEAD", "POST", "PUT"), kinds=(
     results = []
     hold_closes = {"v": False}
 
+    req_payload = b"req1" + b"." * max(0, req_pad - 4)
+
     async def gen():
-        yield b"re"
-        yield b"q1"
+        yield req_payload[:2]
+        yield req_payload[2:]
 
     async def call(i):
         kw = {"headers": {"X-Marker": f"m{i}"}}
@@ -151,7 +159,7 @@ def exchange(ctx, version="1.1", methods=("GET", "HEAD", "POST", "PUT"), kinds=(
             kw["headers"]["Connection"] = conn_hdr
         m = method if i == 1 else "GET"
         if i == 1 and req_body == "bytes":
-            kw["data"] = b"req1"
+            kw["data"] = req_payload
         elif i == 1 and req_body == "stream":
             kw["data"] = gen()
         try:
@@ -165,7 +173,7 @@ def exchange(ctx, version="1.1", methods=("GET", "HEAD", "POST", "PUT"), kinds=(
     def fail(key, **kw):
         info = {"key": key, "version": version, "method": method, "req_body": req_body, "connection": conn_hdr,
                 "status": status, "reason": reason, "resp_body": kind, "force_close": force_close, "cuts": [cut_c, cut_s],
-                "seen": [list(map(str, s)) for s in seen], "results": [list(map(str, r)) for r in results]}
+                "seen": [[str(x)[:60] for x in s] for s in seen], "results": [[str(x)[:60] for x in r] for r in results]}
         info.update(kw)
         if links:
             info["wire_s2c"] = bytes(links[0]["str"].out).decode("latin1")[:400]
@@ -209,16 +217,16 @@ def exchange(ctx, version="1.1", methods=("GET", "HEAD", "POST", "PUT"), kinds=(
     if r1[1] == "error":
         return fail("exchange-fails:" + str(r1[2]))
     # ---- request as seen by the handler
-    want_body = b"req1" if req_body in ("bytes", "stream") else b""
+    want_body = req_payload if req_body in ("bytes", "stream") else b""
     if not seen or seen[0] != (method, "/p1?q=1", "m1", want_body):
         return fail("request-altered-in-transit")
     # ---- response as seen by the caller
     bodyless = method == "HEAD" or status in (204, 304)
-    want_resp_body = b"" if (bodyless or kind == "empty") else b"resp1"
+    want_resp_body = b"" if (bodyless or kind == "empty") else (b"resp1" + b"." * max(0, pad - 5))
     if r1[1] != status or r1[2] != "r1":
         return fail("response-status-or-headers-altered")
     if r1[3] != want_resp_body:
-        return fail("response-body-altered", got=str(r1[3]))
+        return fail("response-body-altered", got=str(r1[3])[:80], got_len=len(r1[3]), want_len=len(want_resp_body))
     if reason is not None and r1[4] != reason:
         return fail("response-reason-altered", got=repr(r1[4]), sent=repr(reason))
     if r1[5] != "a  b\tc":
@@ -265,8 +273,8 @@ def jobs(tier):
     for v in ("1.1", "1.0"):
         for m in ("GET", "HEAD", "POST", "PUT"):
             for k in ("empty", "bytes", "chunked", "stream"):
-                out.append(dict(name=f"x-{v}-{m}-{k}", func="exchange", params=dict(version=v, methods=[m], kinds=[k]),
-                                limits=lim))
+                out.append(dict(name=f"x-{v}-{m}-{k}", func="exchange",
+                                params=dict(version=v, methods=[m], kinds=[k], deep=tier != "quick"), limits=lim))
     return out
 
 
@@ -279,4 +287,5 @@ REQUIRED_OUTCOMES = ("1.1:reused", "1.1:new-conn", "1.0:")
 
 def bounds(tier):
     return {"product": "version {1.0,1.1} x method {GET,HEAD,POST,PUT} x request body {none, bytes, async stream} x Connection {absent, close, keep-alive} x status {200,204,304,404} x response body {empty, bytes, chunked stream, stream of unknown length} x force_close x 5 request cuts x 6 response cuts - complete",
-            "second_request": "a GET on the same session after the first exchange"}
+            "second_request": "a GET on the same session after the first exchange",
+            "thorough": "additionally response body sizes {5, 2047, 2048, 2049, 70000}, request body sizes {4, 2049, 70000}, 11 request cuts, 14 response cuts"}
